@@ -288,6 +288,47 @@ def evaluate(kind, abbr, cfg_a, cfg_b, ra, rb):
     raise ValueError(kind)
 
 
+CACHE_SEQ_ABBRS = ['ul>li.item*2', 'div#main>p.c+span', 'section.a>div.b>p', 'table>.row>.col']
+CACHE_SEQ_OPTS = [
+    {'comment.enabled': True},
+    {'comment.enabled': False},
+    {'comment.enabled': True, 'comment.after': '<!-- end [#ID][.CLASS] -->'},
+    {'comment.enabled': True, 'comment.trigger': ['id']},
+    {'comment.enabled': False, 'output.indent': '  '},
+    {'comment.enabled': True, 'comment.before': '<!-- [#ID] -->', 'output.format': False},
+]
+
+
+def shared_cache_sequences(ctx):
+    """The options decide the output also when one `cache` dict is shared by successive expansions with different
+    option sets (comments on, then off, then other templates/triggers): each result must equal the result of the
+    same call without a cache; in particular comments disabled => no comment text."""
+    from emmet import expand
+    n = 0
+    for abbr in CACHE_SEQ_ABBRS:
+        for start in range(len(CACHE_SEQ_OPTS)):
+            cache = {}
+            seq = CACHE_SEQ_OPTS[start:] + CACHE_SEQ_OPTS[:start]
+            for step, opts in enumerate(seq):
+                try:
+                    got = expand(abbr, {'options': dict(opts), 'cache': cache})
+                    want = expand(abbr, {'options': dict(opts)})
+                except Exception as e:  # noqa
+                    got, want = repr(e), None
+                n += 1
+                ctx.count_eval()
+                ctx.cover('C12:shared-cache-sequence')
+                if got != want:
+                    ctx.property_failure('C12:shared-cache|%s|%d|%d' % (abbr, start, step),
+                                         'C12 shared cache: expand(%r) under options %r through a cache dict used by %d earlier '
+                                         'expansion(s) with other comment/format options gives %r, without cache %r' % (
+                                             abbr, opts, step, got, want),
+                                         {'component': 'C12', 'kind': 'shared-cache', 'abbr': abbr, 'sequence': seq[:step + 1],
+                                          'why': 'result depends on options of earlier calls sharing the cache'})
+                    break
+    ctx.cov['shared_cache_sequences'] = n
+
+
 def run(ctx):
     ok = ctx.build(['props/C12.vo', 'run/MarkupRun.vo', 'run/DepthRun.vo'])
     if ok:
@@ -372,6 +413,7 @@ def run(ctx):
                     kind, abbr, canon_cfg(cfg_a), (' vs ' + canon_cfg(cfg_b)) if cfg_b else '', bad),
                     {'component': 'C12', 'kind': kind, 'abbr': abbr, 'cfg_a': cfg_a, 'cfg_b': cfg_b, 'why': bad})
     theorem_domain_check(ctx, dom_model, groups, impl, index)
+    shared_cache_sequences(ctx)
     for gr in groups[n_fixed + 3:n_fixed + 7]:
         r = impl[index[(groups.index(gr), 'a')]]
         ctx.sample({'abbr': gr['abbr'], 'config_a': gr['cfgs']['a'], 'config_b': gr['cfgs']['b'],
@@ -431,6 +473,17 @@ def replay(ctx, obj):
         print('replay names a broken obligation, no input: %s' % str(rp)[:300])
         return 1
     from markup_util import impl_expand
+    if rp.get('kind') == 'shared-cache':
+        from emmet import expand
+        cache = {}
+        bad = None
+        for opts in rp['sequence']:
+            got = expand(rp['abbr'], {'options': dict(opts), 'cache': cache})
+            want = expand(rp['abbr'], {'options': dict(opts)})
+            if got != want:
+                bad = 'with shared cache %r, without %r' % (got, want)
+        print('C12 shared-cache sequence on %r: %s' % (rp['abbr'], bad or 'property holds'))
+        return 1 if bad else 0
     ra = impl_expand(rp['abbr'], rp['cfg_a'])
     rb = impl_expand(rp['abbr'], rp['cfg_b']) if rp.get('cfg_b') is not None else None
     bad, cls = evaluate(rp['kind'], rp['abbr'], rp['cfg_a'], rp.get('cfg_b'), ra, rb)
